@@ -14,9 +14,9 @@ import signal
 
 import corpus
 import genjs
-from parts import texts as T
+from parts import parsetie, texts as T
 
-SPEC = dict(gen=['tables', 'lexdata'], props=['CalmVerif.Props.C12'], drivers=['drv_lex'], audit='Audit/C12.lean')
+SPEC = dict(gen=['tables', 'lexdata', 'actions'], props=['CalmVerif.Props.C12'], drivers=['drv_lex', 'drv_parse'], audit='Audit/C12.lean')
 
 LEX_ALPHA = list("ab1 \n\t/*\"'\\{}();=+-.[],<>!&|?:") + ['\r', ' ', '\xa0', 'é', '0x', 'e', '﻿', '　', '//', '/*', '*/',
                                                              'in ', 'if', 'var ', 'return', '\\u', '\\x', '\\\n', '++', '/=', 'get ', '$', '_', '😀']
@@ -139,6 +139,9 @@ def run(ctx):
                     'implementation non-termination is only excluded by the per-case time limit (no theorem that the fuel suffices)']
     ctx.assumptions += ['well-formed Unicode scalar sequences; Python recursion limit not modelled (deeply nested inputs are not generated)']
     texts = inputs(ctx)
+    if getattr(ctx, 'drivers_ok', True):
+        rng = ctx.sub_rng('tie')
+        parsetie.full_tie(ctx, rng.sample(texts, min(len(texts), ctx.n(1500, 12000))))
     nbad = 0
     for text in texts:
         for wc in (False, True):
